@@ -46,6 +46,14 @@ func main() {
 		fmt.Fprintln(os.Stderr, "vextract:", err)
 		os.Exit(1)
 	}
+	// helper functions introduced since the pinned source are inlined first (inline.go)
+	// and a few statement forms are rewritten into the equivalent form the pinned source uses (normalize.go)
+	nlog := normalizeForms(files)
+	nlog = append(nlog, inlineHelpers(files)...)
+	nlog = append(nlog, normalizeForms(files)...)
+	for _, l := range nlog {
+		fmt.Fprintln(os.Stderr, "vextract: pre-pass:", l)
+	}
 	pkg := collect(files)
 	outputs := map[string]string{
 		"Async.lean":    genAsync(pkg),
